@@ -195,6 +195,16 @@ class Shadow:
                 elif c == "F": ex.out.append("%s:%d" % (vis[a], b - a - 1)); a += 1
                 else: b -= 1; ex.out.append("%s:%d" % (vis[b], b - a))
             return ex
+        if op == "iterc":
+            v = int(t[1]); vis = V[v].vis; a, b = 0, len(vis)
+            ex.out = [str(b)]
+            for pi, part in enumerate((t[2], t[3])):
+                if pi == 1: ex.out.append("C:%d" % (b - a))
+                for c in ("" if part == "-" else part):
+                    if a == b: ex.out.append("N:0")
+                    elif c == "F": ex.out.append("%s:%d" % (vis[a], b - a - 1)); a += 1
+                    else: b -= 1; ex.out.append("%s:%d" % (vis[b], b - a))
+            return ex
         if op in ("drain", "splice"):
             return self.expect_range(ex, t)
         if op == "clone":
@@ -618,7 +628,7 @@ class Shadow:
                 bound = p.bit_length() + 1 if self.vecs[v].bk == "heap" else 2 * p.bit_length() + 3
                 if p >= 4 and c > bound:
                     self.fail("capacity", "%s: %d capacity changes in a run of %d pushes (not amortised)" % (what, c, p))
-        elif op not in ("get", "at", "iter", "info", "probe", "views"):
+        elif op not in ("get", "at", "iter", "iterc", "info", "probe", "views"):
             for v in list(self.push_run):
                 if len(toks) > 1 and toks[1].isdigit() and int(toks[1]) == v: self.push_run.pop(v, None)
 
